@@ -145,10 +145,19 @@ pub fn effects_line(events: &[Event]) -> String {
     }
 }
 
+/// queue names longer than 64 bytes are printed as `h<fnv64>:<length>`
+pub fn name_tok(name: &[u8]) -> String {
+    if name.len() <= 64 {
+        hex(name)
+    } else {
+        format!("h{}:{}", fnv64(name), name.len())
+    }
+}
+
 pub fn gc_order(events: &[Event]) -> String {
     let names: Vec<String> = events
         .iter()
-        .filter_map(|e| if let Event::GcRecordPosition(q) = e { Some(hex(q.as_bytes())) } else { None })
+        .filter_map(|e| if let Event::GcRecordPosition(q) = e { Some(name_tok(q.as_bytes())) } else { None })
         .collect();
     if names.is_empty() {
         "-".into()
@@ -207,7 +216,7 @@ pub fn state_lines(obs: &Obs, files: &[u64], used: usize, disk: usize) -> Vec<St
         let recs: Vec<String> = q.recs.iter().map(|(p, b)| rec_s(*p, b)).collect();
         lines.push(format!(
             "S q={} start={} next={} last={} ff={} lr={} n={} recs={}",
-            hex(name.as_bytes()),
+            name_tok(name.as_bytes()),
             q.start,
             q.next(),
             opt_s(&q.last),
